@@ -41,6 +41,9 @@ EDITS = [
     ("arch(): flip the if", "src/internal/summary.rs",
      r"                if arch\.is_empty\(\) \{\n                    None\n                \} else \{\n                    Some\(arch\)\n                \}",
      "                if !arch.is_empty() {\n                    Some(arch)\n                } else {\n                    None\n                }", ["C10"]),
+    ("format_with_precedence: the +1 moved into a new pure helper method", "src/internal/expr.rs",
+     r"(?s)arg2\.format_with_precedence\(formatter, op_prec \+ 1\)\?;(.*?)    fn precedence\(&self\) -> i32 \{",
+     r"arg2.format_with_precedence(formatter, op_prec + op.rhs_bump())?;\1    fn rhs_bump(&self) -> i32 {\n        match *self {\n            _ => 1,\n        }\n    }\n\n    fn precedence(&self) -> i32 {", ["C19"]),
     ("encode (streamname): comment", "src/internal/streamname.rs", r"(    let mut chars = name\.chars\(\)\.peekable\(\);\n    while let)", r"    // greedy packing\n\1", ["C11"]),
 ]
 
